@@ -252,12 +252,13 @@ type VC struct {
 	assumptions map[string]bool
 	funcsUsed   map[string]bool
 	localPrefix map[string]string // ref term of a non-escaping local struct -> component prefix
+	lockUID     map[string]int
 }
 
 func newVC(w *World, name string) *VC {
 	vc := &VC{w: w, Name: name, declared: map[string]bool{}, compSort: map[string]string{},
 		tags: map[string]int{}, strConst: map[string]string{}, specDone: map[string]bool{},
-		specComps: map[string][]string{}, assumptions: map[string]bool{}, funcsUsed: map[string]bool{}, localPrefix: map[string]string{}}
+		specComps: map[string][]string{}, assumptions: map[string]bool{}, funcsUsed: map[string]bool{}, localPrefix: map[string]string{}, lockUID: map[string]int{}}
 	return vc
 }
 
